@@ -7,13 +7,15 @@
    Model/Load.v `loadc` (OutOfFuel); book-keeping Model/Book.v + Model/Named.v (Panic/NPanic);
    price repository Model/PriceDb.v + Model/PriceHazard.v (None = division by zero; PTOutOfFuel);
    queries Model/Convert.v (COutOfFuel); printer Model/Display.v (balance_underflow);
-   literals Model/Lit.v; the commands end to end Model/Lower.v `pipeline` (PlHazard). *)
+   literals Model/Lit.v; the commands end to end Model/Lower.v `pipeline` (PlHazard) on one text,
+   Model/Pipeline.v `run_files` (FrHazard) on a file system of texts with includes. *)
 From Coq Require Import List NArith ZArith Bool QArith Qcanon.
 From Okv Require Import Base.Maps Base.Dec Model.Lit Model.Syntax Model.Comb Model.ParseExpr Model.ParseLedger
      Model.Load Model.Amount Model.Book Model.Query Model.PriceDb Model.PriceHazard Model.Convert
      Model.Intern Model.Named Model.Display Model.DisplaySpec Model.Lower
      Proofs.ParseTotal Proofs.LitShow Proofs.TotalLoad Proofs.TotalReport Proofs.TotalFormat
-     Proofs.TotalLit Proofs.TotalPipeline.
+     Proofs.TotalLit Proofs.TotalPipeline
+     Model.Pipeline Proofs.PipelineLoad Proofs.PipelineProofs.
 Import ListNotations.
 
 (* ---------- parsing ---------- *)
@@ -174,3 +176,44 @@ Theorem C06_pipeline_plain_total : forall w choose o s fuel st,
   head_width_ok w -> ro_exchange o = None -> pipeline w fuel choose o s <> PlHazard st.
 Proof. exact pipeline_plain_never_hazard. Qed.
 Print Assumptions C06_pipeline_plain_total.
+
+(* ---------- the commands on a tree of files ---------- *)
+
+(* Loader::load on a file system whose files are texts (Model/Pipeline.v `loadt`: canonicalise,
+   cycle check, read, parse the file when it is visited, expand includes in place): with any
+   budget beyond the number of files it ends with TDone, a LoadError of Model/Load.v or
+   LoadError::Parse - never by exhausting the budget (C06_load_terminates carried over through
+   the simulation with `loadc` over the parsed file system) and never with a hazard value of
+   the parser on the text of a file (C06_parse_total) - and the answer does not depend on the
+   budget. *)
+Theorem C06_files_load_terminates : forall fs root fuel,
+  (length fs < fuel)%nat ->
+  snd (load_texts fuel fs root) <> TOutOfFuel /\
+  (forall p, snd (load_texts fuel fs root) <> THazard p) /\
+  (forall fuel', (length fs < fuel')%nat -> load_texts fuel' fs root = load_texts fuel fs root).
+Proof. exact files_load_terminates. Qed.
+Print Assumptions C06_files_load_terminates.
+
+(* For every file system of texts and every root - include graphs with cycles, missing files,
+   globs that match nothing, files with syntax errors, anything: load (files parsed as they
+   are visited), book every delivered entry (names resolved through the stores), build the
+   price repository, answer the balance query with the given -X / --historical / --now / date
+   range, list the postings.  With a loader budget beyond the number of files and a query
+   budget beyond some bound the result is a LoadError, a syntax error with its file, a
+   book-keeping error with its file and entry, an unknown -X commodity, a conversion error, or
+   the report - never the hazard value of a stage (FsLoad: budget exhausted; FsParse: the
+   parser's hazards; FsProcess: a panic of process or an error index outside the delivered
+   entries; FsPrices: division by zero; FsQuery: budget exhausted).
+   Composes C06_load_terminates, C06_parse_total, C06_process_named_total, C06_price_total,
+   C06_query_total. *)
+Theorem C06_files_pipeline_total : forall choose o fs root,
+  exists q0, forall lfuel qfuel, (length fs < lfuel)%nat -> (q0 <= qfuel)%nat ->
+    forall st, run_files lfuel qfuel choose o fs root <> FrHazard st.
+Proof. exact files_pipeline_total. Qed.
+Print Assumptions C06_files_pipeline_total.
+
+(* without -X no query budget is involved *)
+Theorem C06_files_pipeline_plain_total : forall choose o fs root lfuel qfuel st,
+  (length fs < lfuel)%nat -> ro_exchange o = None -> run_files lfuel qfuel choose o fs root <> FrHazard st.
+Proof. exact files_pipeline_plain_total. Qed.
+Print Assumptions C06_files_pipeline_plain_total.
